@@ -1,6 +1,8 @@
 """M1: page layer specifications (SPEC-page, INV-writer, INV-reader) and obligations."""
 import z3
 
+from .dm import udiv, urem
+
 from .harness import Scenario
 from .interp import Inconclusive
 from .models import Dev, NoneV, SomeV, U64, crc_sample
@@ -15,10 +17,17 @@ PAYLOAD = 1020
 FRESH_OVERRIDE = {}
 
 
-def fresh(name, w=64):
-    """a named symbolic constant; in native-replay mode the counterexample's value"""
+NARROW = {"on": True}
+
+
+def fresh(name, w=64, bits=None):
+    """a named symbolic constant; in native-replay mode the counterexample's value.
+    bits: the value is known (by an accompanying assumption) to fit into `bits` bits: it is declared that narrow and
+    zero-extended, which lets the SAT back end propagate the constant upper bits instead of searching over them."""
     if name in FRESH_OVERRIDE:
         return z3.BitVecVal(FRESH_OVERRIDE[name], w)
+    if bits and NARROW["on"] and bits < w:
+        return z3.ZeroExt(w - bits, z3.BitVec(name, bits))
     return z3.BitVec(name, w)
 
 
@@ -41,7 +50,7 @@ def page_valid(I, content_fn, p):
 
 
 def phys_of_logical(a):
-    return a + U64(4) * z3.UDiv(a, U64(PAYLOAD))
+    return a + U64(4) * udiv(a, U64(PAYLOAD))
 
 
 def init_interp(I):
@@ -60,7 +69,7 @@ def mk_reader_state(I, cached, max_pages=8, mode="total", fault_at=None, devname
     """Arbitrary INV-reader state over an arbitrary device of 1..max_pages pages.
     cached: False -> page_num = None ; True -> page_num = Some(c), buffer = device page c, page c valid."""
     P = I.path
-    npages = fresh(devname + "_pages")
+    npages = fresh(devname + "_pages", bits=8)
     P.assume(z3.And(z3.UGE(npages, U64(1)), z3.ULE(npages, U64(max_pages))))
     P.assume(z3.ULT(I.crc_k, U64(PAYLOAD)))
     content = sym_buf(devname + "_content", npages * U64(PAGE))
@@ -73,7 +82,7 @@ def mk_reader_state(I, cached, max_pages=8, mode="total", fault_at=None, devname
     fields[f["pages"]] = npages
     fields[f["reader"]] = dev
     off = fresh(devname + "_offset")
-    P.assume(z3.ULE(off, npages * U64(PAYLOAD)))
+    P.assume(z3.ULE(off, npages * U64(PAGE)))       # seek_physical(p) leaves offset <= p < physical size
     fields[f["offset"]] = off
     if cached:
         c = fresh(devname + "_cached")
@@ -98,7 +107,7 @@ def inv_reader(I, rd, dev, content, npages, j):
     pn = rd.fields[f["page_num"]]
     cs = [rd.fields[f["pages"]] == npages, rd.fields[f["page_size"]] == U64(PAGE),
           rd.fields[f["phy_file_size"]] == npages * U64(PAGE), rd.fields[f["log_file_size"]] == npages * U64(PAYLOAD),
-          z3.ULE(rd.fields[f["offset"]], npages * U64(PAYLOAD))]
+          z3.ULE(rd.fields[f["offset"]], npages * U64(PAGE))]
     if pn.vname == "Some":
         c = pn.fields[0]
         pb = rd.fields[f["page_buffer"]]
@@ -115,9 +124,12 @@ def reader_read_scenario(cached, max_n=3000):
         n = fresh("read_n")
         I.path.assume(z3.ULE(n, U64(max_n)))
         holder = {"rd": rd, "buf": sym_buf("read_dst", n)}
+        o = dict(n=n, dev=dev, st=st, pre_buf=sym_buf("read_dst", n))
+        I.last_state = o
         name = I.methods[("PagedReader", "Read", "read")]
-        res = I.call_fn(name, [Ref(Loc(holder, "rd")), SliceRef(Loc(holder, "buf"), 0, n)])
-        return dict(res=res, rd=holder["rd"], buf=holder["buf"], n=n, dev=dev, st=st, pre_buf=sym_buf("read_dst", n))
+        o["res"] = I.call_fn(name, [Ref(Loc(holder, "rd")), SliceRef(Loc(holder, "buf"), 0, n)])
+        o["rd"], o["buf"] = holder["rd"], holder["buf"]
+        return o
     return scen
 
 
@@ -125,8 +137,8 @@ def reader_read_claims(o, I):
     f = reader_fields(I)
     st = o["st"]
     npages, off, content = st["npages"], st["offset"], st["content"]
-    page = z3.UDiv(off, U64(PAYLOAD))
-    inpage = z3.URem(off, U64(PAYLOAD))
+    page = udiv(off, U64(PAYLOAD))
+    inpage = urem(off, U64(PAYLOAD))
     valid = page_valid(I, content.fn, page)
     i = fresh("sk_i")
     j = fresh("sk_j")
@@ -171,9 +183,9 @@ def mk_writer_state(I, max_pages=8, mode="total", fault_at=None, devname="wdev")
     0 <= offset < 1020, arbitrary page buffer.  Universally quantified INV conjuncts are instantiated at the skolem page q."""
     P = I.path
     s = WState()
-    s.npages = fresh(devname + "_pages")
-    s.P = fresh(devname + "_P")
-    s.offset = fresh(devname + "_offset")
+    s.npages = fresh(devname + "_pages", bits=8)
+    s.P = fresh(devname + "_P", bits=8)
+    s.offset = fresh(devname + "_offset", bits=12)
     s.q = fresh("sk_q")
     P.assume(z3.ULE(s.npages, U64(max_pages)))
     P.assume(z3.ULE(s.P, s.npages))
@@ -186,7 +198,7 @@ def mk_writer_state(I, max_pages=8, mode="total", fault_at=None, devname="wdev")
     # beyond the cursor the page buffer mirrors the device page (if it exists) or is zero (new page);
     # instantiated at the skolem index j and at the in-page index of the skolem logical address i
     s.j = fresh("sk_j")
-    for jj in (s.j, z3.URem(fresh("sk_i"), U64(PAYLOAD))):
+    for jj in (s.j, urem(fresh("sk_i"), U64(PAYLOAD))):
         P.assume(buffer_tail_ok(s.content.fn, s.npages, s.P, s.offset, s.wbuf.fn, jj))
     f = writer_fields(I)
     fields = [None] * len(f)
@@ -214,8 +226,8 @@ def assume_page_valid(I, s, p):
 
 def logical(content_fn, npages, P, wbuf_fn, i):
     """Abstraction: logical stream byte i of a writer state"""
-    pg = z3.UDiv(i, U64(PAYLOAD))
-    ip = z3.URem(i, U64(PAYLOAD))
+    pg = udiv(i, U64(PAYLOAD))
+    ip = urem(i, U64(PAYLOAD))
     return z3.If(pg == P, wbuf_fn(ip), z3.If(z3.ULT(pg, npages), content_fn(pg * U64(PAGE) + ip), z3.BitVecVal(0, 8)))
 
 
@@ -229,15 +241,15 @@ def post_view(I, s):
     w = s.holder["w"]
     dev = w.fields[f["writer"]]
     length = dev.content.length
-    return dict(dev=dev, content=dev.content, length=length, npages=z3.UDiv(length, U64(PAGE)), pos=dev.pos,
-                P=z3.UDiv(dev.pos, U64(PAGE)), offset=w.fields[f["offset"]], wbuf=w.fields[f["page_buffer"]])
+    return dict(dev=dev, content=dev.content, length=length, npages=udiv(length, U64(PAGE)), pos=dev.pos,
+                P=udiv(dev.pos, U64(PAGE)), offset=w.fields[f["offset"]], wbuf=w.fields[f["page_buffer"]])
 
 
 def inv_writer_post(I, s, v):
     q = s.q
     return [
-        ("INV: device length is a whole number of pages", z3.URem(v["length"], U64(PAGE)) == U64(0)),
-        ("INV: device cursor at a page start within the file", z3.And(z3.URem(v["pos"], U64(PAGE)) == U64(0), z3.ULE(v["P"], v["npages"]))),
+        ("INV: device length is a whole number of pages", urem(v["length"], U64(PAGE)) == U64(0)),
+        ("INV: device cursor at a page start within the file", z3.And(urem(v["pos"], U64(PAGE)) == U64(0), z3.ULE(v["P"], v["npages"]))),
         ("INV: 0 <= offset < 1020", z3.ULT(v["offset"], U64(PAYLOAD))),
         ("INV: every device page carries a valid checksum", z3.Implies(z3.ULT(q, v["npages"]), page_valid(I, v["content"].fn, q))),
         ("INV: page buffer beyond the cursor mirrors the device page / is zero", buffer_tail_ok(v["content"].fn, v["npages"], v["P"], v["offset"], v["wbuf"].fn, s.j)),
@@ -250,8 +262,8 @@ def post_logical(v, i):
 
 def file_equals_logical(s, v, i, L):
     """at a flush point: payload byte i of the device == logical stream byte i, for every i inside the file"""
-    pg = z3.UDiv(i, U64(PAYLOAD))
-    ip = z3.URem(i, U64(PAYLOAD))
+    pg = udiv(i, U64(PAYLOAD))
+    ip = urem(i, U64(PAYLOAD))
     return z3.Implies(z3.ULT(pg, v["npages"]), v["content"].fn(pg * U64(PAGE) + ip) == L)
 
 
@@ -259,7 +271,8 @@ def w_write_scenario(max_n=3000):
     def scen(I):
         init_interp(I)
         s = mk_writer_state(I)
-        s.n = fresh("write_n")
+        I.last_state = s
+        s.n = fresh("write_n", bits=16)
         I.path.assume(z3.ULE(s.n, U64(max_n)))
         s.data = sym_buf("write_data", s.n)
         s.holder["data"] = s.data
@@ -288,10 +301,41 @@ def w_write_claims(s, I):
     return out
 
 
+def w_write_all_scenario(max_n=3000):
+    def scen(I):
+        init_interp(I)
+        s = mk_writer_state(I)
+        I.last_state = s
+        s.n = fresh("write_n", bits=16)
+        I.path.assume(z3.ULE(s.n, U64(max_n)))
+        s.data = sym_buf("write_data", s.n)
+        s.holder["data"] = s.data
+        from .models import write_all
+        s.res = write_all(I, s.ref, SliceRef(Loc(s.holder, "data"), 0, s.n))
+        return s
+    return scen
+
+
+def w_write_all_claims(s, I):
+    v = post_view(I, s)
+    i = fresh("sk_i")
+    out = [("write_all returns Ok", z3.BoolVal(s.res.vname == "Ok"))]
+    if s.res.vname != "Ok":
+        return out
+    cursor = s.P * U64(PAYLOAD) + s.offset
+    out += inv_writer_post(I, s, v)
+    out.append(("logical cursor advanced by the whole length", v["P"] * U64(PAYLOAD) + v["offset"] == cursor + s.n))
+    exp = z3.If(z3.And(z3.ULE(cursor, i), z3.ULT(i, cursor + s.n)), s.data.at(i - cursor), pre_logical(s, i))
+    out.append(("logical stream = old stream overlaid with the whole buffer", post_logical(v, i) == exp))
+    out.append(("device pages = max(old, completed pages)", v["npages"] == z3.If(z3.UGE(s.npages, v["P"]), s.npages, v["P"])))
+    return out
+
+
 def w_simple_scenario(method, trait=None, extra_args=None):
     def scen(I):
         init_interp(I)
         s = mk_writer_state(I)
+        I.last_state = s
         args = [s.ref]
         s.args = []
         if extra_args:
@@ -301,7 +345,7 @@ def w_simple_scenario(method, trait=None, extra_args=None):
                 args.append(a)
         if method == "physical_seek":
             # the caller-visible target page must be one of the valid device pages
-            assume_page_valid(I, s, z3.UDiv(s.args[0], U64(PAGE)))
+            assume_page_valid(I, s, udiv(s.args[0], U64(PAGE)))
         name = I.methods[("PagedWriter", trait, method)]
         s.res = I.call_fn(name, args)
         return s
@@ -330,12 +374,12 @@ def w_seek_claims(s, I):
     # device size after the implied flush
     np1 = z3.If(z3.And(z3.UGT(s.offset, U64(0)), s.P == s.npages), s.npages + 1, s.npages)
     end = np1 * U64(PAGE)
-    legal = z3.And(z3.ULE(pos, end), z3.ULT(z3.URem(pos, U64(PAGE)), U64(PAYLOAD)))
+    legal = z3.And(z3.ULE(pos, end), z3.ULT(urem(pos, U64(PAGE)), U64(PAYLOAD)))
     out = []
     if s.res.vname == "Ok":
         out.append(("Ok only for a position inside the file and outside checksums", legal))
         out += inv_writer_post(I, s, v)
-        out.append(("cursor = SPEC-page inverse of the position", z3.And(v["P"] == z3.UDiv(pos, U64(PAGE)), v["offset"] == z3.URem(pos, U64(PAGE)))))
+        out.append(("cursor = SPEC-page inverse of the position", z3.And(v["P"] == udiv(pos, U64(PAGE)), v["offset"] == urem(pos, U64(PAGE)))))
         out.append(("logical stream unchanged", post_logical(v, i) == pre_logical(s, i)))
         out.append(("file payload == logical stream", file_equals_logical(s, v, i, pre_logical(s, i))))
     else:
@@ -351,10 +395,10 @@ def w_align_claims(s, I):
     if s.res.vname != "Ok":
         return out
     cursor = s.P * U64(PAYLOAD) + s.offset
-    pad = z3.URem(U64(4) - z3.URem(s.offset, U64(4)), U64(4))
+    pad = urem(U64(4) - urem(s.offset, U64(4)), U64(4))
     out += inv_writer_post(I, s, v)
     out.append(("cursor advanced to the next multiple of 4", v["P"] * U64(PAYLOAD) + v["offset"] == cursor + pad))
-    out.append(("physical position is 4-aligned", z3.URem(v["pos"] + v["offset"], U64(4)) == U64(0)))
+    out.append(("physical position is 4-aligned", urem(v["pos"] + v["offset"], U64(4)) == U64(0)))
     exp = z3.If(z3.And(z3.ULE(cursor, i), z3.ULT(i, cursor + pad)), z3.BitVecVal(0, 8), pre_logical(s, i))
     out.append(("padding bytes are zero, nothing else changes", post_logical(v, i) == exp))
     return out
@@ -508,8 +552,10 @@ class WriterReplay:
     def __init__(self, op_rust, extra=None, patch=None):
         self.op_rust, self.extra, self.patch = op_rust, extra, patch
 
-    def replay(self, I, scenario, claim_name, model, s):
-        pre = writer_extract(model, s, self.extra)
+    def extract(self, I, model, s):
+        return writer_extract(model, s, self.extra)
+
+    def run(self, I, scenario, claim_name, pre):
         code = WRITER_DRIVER % dict(helpers=HELPERS, stream=rust_bytes(pre["stream"]), pending=rust_bytes(pre["pending"]),
                                     P=pre["P"], npages=pre["npages"], op=self.op_rust(pre))
         rc, out = run_rust_test(I.crate_dir, "paged_writer.rs", code)
@@ -540,6 +586,9 @@ class WriterReplay:
         info["native_claims"] = vals
         if vals.get(claim_name) is False:
             return True, "claim is false on the native post-state", info
+        other = [k for k, v in vals.items() if v is False]
+        if other:
+            return True, "on the native run of this counterexample the claim '%s' is false (the named claim evaluates to %r)" % (other[0], vals.get(claim_name)), info
         return False, "claim evaluates to %r natively" % (vals.get(claim_name),), info
 
 
@@ -574,6 +623,8 @@ def writer_scenarios():
     return [
         Scenario("PagedWriter::write one call from INV state", w_write_scenario(), w_write_claims,
                  replayer=R(lambda pre: "let data: Vec<u8> = %s; %s" % (rust_bytes(pre["data"]), _res_num("w.write(&data)")), _write_extra, _write_patch)),
+        Scenario("PagedWriter write_all (std loop over write) from INV state", w_write_all_scenario(), w_write_all_claims,
+                 replayer=R(lambda pre: "let data: Vec<u8> = %s; %s" % (rust_bytes(pre["data"]), _res_unit("w.write_all(&data)")), _write_extra, _write_patch)),
         Scenario("PagedWriter::flush from INV state", w_simple_scenario("flush", "Write"), w_flush_claims,
                  replayer=R(lambda pre: _res_unit("w.flush()"))),
         Scenario("PagedWriter::physical_seek from INV state", w_simple_scenario("physical_seek", None, ["seek_pos"]), w_seek_claims,
@@ -637,12 +688,15 @@ class ReaderReplay:
     def __init__(self, op_rust, extract_extra, rebuild_obs):
         self.op_rust, self.extract_extra, self.rebuild_obs = op_rust, extract_extra, rebuild_obs
 
-    def replay(self, I, scenario, claim_name, model, o):
+    def extract(self, I, model, o):
         st = o["st"]
         npages = mval(model, st["npages"])
         pre = dict(npages=npages, offset=mval(model, st["offset"]), cached=(mval(model, st["cached"]) if st["cached"] is not None else -1),
                    dev=seal_device(I, model, st["content"].fn, npages), sk={n: mval(model, z3.BitVec(n, 64)) for n in ("sk_i", "sk_q", "sk_j")})
         pre.update(self.extract_extra(model, o))
+        return pre
+
+    def run(self, I, scenario, claim_name, pre):
         code = READER_DRIVER % dict(helpers=HELPERS, dev=rust_bytes(pre["dev"]), cached=pre["cached"], offset=pre["offset"], op=self.op_rust(pre))
         rc, out = run_rust_test(I.crate_dir, "paged_reader.rs", code)
         kv = parse_kv(out)
@@ -667,6 +721,9 @@ class ReaderReplay:
         info["native_claims"] = vals
         if vals.get(claim_name) is False:
             return True, "claim is false on the native post-state", info
+        other = [k for k, v in vals.items() if v is False]
+        if other:
+            return True, "on the native run of this counterexample the claim '%s' is false (the named claim evaluates to %r)" % (other[0], vals.get(claim_name)), info
         return False, "claim evaluates to %r natively" % (vals.get(claim_name),), info
 
 
@@ -717,7 +774,7 @@ def reader_scenarios():
 
 # =============================================================================================== explicit histories from new()
 def logical_of_phys(p):
-    return p - U64(4) * z3.UDiv(p, U64(PAGE))
+    return p - U64(4) * udiv(p, U64(PAGE))
 
 
 def history_scenario(with_reader, max_n1=2100, max_n2=40, max_m=1100):
@@ -743,9 +800,9 @@ def history_scenario(with_reader, max_n1=2100, max_n2=40, max_m=1100):
         s.steps = []
         s.steps.append(write_all(I, s.ref, SliceRef(Loc(s.holder, "d1"), 0, s.n1)))
         s.steps.append(I.call_fn(I.methods[("PagedWriter", "Write", "flush")], [s.ref]))
-        size1 = z3.UDiv(s.n1 + U64(PAYLOAD - 1), U64(PAYLOAD)) * U64(PAGE)
+        size1 = udiv(s.n1 + U64(PAYLOAD - 1), U64(PAYLOAD)) * U64(PAGE)
         # a legal patch position: inside the file, outside checksums, and the patch stays inside the written stream
-        I.path.assume(z3.And(z3.ULT(s.p, size1), z3.ULT(z3.URem(s.p, U64(PAGE)), U64(PAYLOAD)), z3.ULE(logical_of_phys(s.p) + s.n2, s.n1)))
+        I.path.assume(z3.And(z3.ULT(s.p, size1), z3.ULT(urem(s.p, U64(PAGE)), U64(PAYLOAD)), z3.ULE(logical_of_phys(s.p) + s.n2, s.n1)))
         s.steps.append(I.call_fn(I.methods[("PagedWriter", None, "physical_seek")], [s.ref, s.p]))
         s.steps.append(write_all(I, s.ref, SliceRef(Loc(s.holder, "d2"), 0, s.n2)))
         s.steps.append(I.call_fn(I.methods[("PagedWriter", "Write", "flush")], [s.ref]))
@@ -765,7 +822,7 @@ def history_scenario(with_reader, max_n1=2100, max_n2=40, max_m=1100):
                 s.rq = fresh("h_rseek")
                 s.m = fresh("h_rlen")
                 I.path.assume(z3.ULE(s.m, U64(max_m)))
-                I.path.assume(z3.ULT(z3.URem(s.rq, U64(PAGE)), U64(PAYLOAD)))
+                I.path.assume(z3.ULT(urem(s.rq, U64(PAGE)), U64(PAYLOAD)))
                 s.rseek = I.call_fn(I.methods[("PagedReader", None, "seek_physical")], [rref, s.rq])
                 if s.rseek.vname == "Ok":
                     from .models import read_exact
